@@ -193,7 +193,7 @@ def check_ops(ctx, num=4):
                     ql = enclosing_for(jl, f.node)
                     for rl in (n for n in own_nodes(f.node) if isinstance(n, ast.For) and norm.is_name(n.iter, D)):
                         rem = [x for x in ast.walk(rl) if isinstance(x, ast.Call) and isinstance(x.func, ast.Attribute) and x.func.attr == "remove" and norm.U(x.func.value) == norm.U(jl.iter)]
-                        if rem and rl.lineno > jl.lineno:
+                        if rem and before(f, jl, rl):
                             drained = True
                 ok = bool(okm) and drained
                 d = f"marked handled before the construction: {bool(okm)}; handled jobs removed from the queue after the scan: {drained}"
